@@ -62,19 +62,20 @@ Proof.
 Qed.
 
 (* the only way process_consensus signs *)
-Definition acts_on_decision (r : role) (st : option dstate) (o : cons_oracle) (ds : dstate) (dc : decision) : Prop :=
+Definition acts_on_decision (g : vcfg) (r : role) (st : option dstate) (o : cons_oracle) (ds : dstate) (dc : decision) : Prop :=
   has_consensus r = true /\ st = Some ds /\ ds_finished ds = false /\ co_err o = false /\
   co_ret o = Some dc /\ ds_running ds = Some (dc_height dc) /\ co_prev o = false /\
-  dc_decodes dc = true /\ dc_valid dc = true.
+  dc_decodes dc = true /\ dc_valid dc = true /\
+  (v_fix_resign g = true -> ds_decided ds = None).
 
-Lemma process_consensus_cases : forall r st o st' c outs,
-  process_consensus r st o = (st', c, outs) ->
+Lemma process_consensus_cases : forall g r st o st' c outs,
+  process_consensus g r st o = (st', c, outs) ->
   (signs outs = [] /\ st' = st) \/
-  (exists ds dc, acts_on_decision r st o ds dc /\
+  (exists ds dc, acts_on_decision g r st o ds dc /\
      signs outs = map (Sign r (post_domain r)) (dc_objs dc) /\
      st' = Some (with_decision ds {| dv_id := dc_value dc; dv_objs := dc_objs dc; dv_slot := dc_slot dc |})).
 Proof.
-  intros r st o st' c outs H. unfold process_consensus in H.
+  intros g r st o st' c outs H. unfold process_consensus in H.
   destruct (has_consensus r) eqn:Ec; simpl in H; [|inv H; left; auto].
   destruct (co_err o) eqn:Ee; [inv H; left; auto|].
   destruct st as [ds|]; [|inv H; left; auto].
@@ -83,10 +84,13 @@ Proof.
   destruct (ds_running ds) as [h|] eqn:Eh; [|inv H; left; auto].
   destruct (N.eqb (dc_height dc) h) eqn:Ehh; simpl in H; [|inv H; left; auto].
   destruct (co_prev o) eqn:Ep; [inv H; left; auto|].
+  destruct (v_fix_resign g && is_some (ds_decided ds)) eqn:Efx; [inv H; left; auto|].
   destruct (dc_decodes dc) eqn:Ed; simpl in H; [|inv H; left; auto].
   destruct (dc_valid dc) eqn:Evl; simpl in H; [|inv H; left; auto].
   inv H. right. exists ds, dc. apply N.eqb_eq in Ehh. subst h.
-  split; [unfold acts_on_decision; repeat split; auto|].
+  split.
+  { unfold acts_on_decision; repeat split; auto.
+    intros Hfx. rewrite Hfx in Efx. simpl in Efx. destruct (ds_decided ds); [discriminate|reflexivity]. }
   split; auto. rewrite signs_app, signs_map_sign. simpl. apply app_nil_r.
 Qed.
 
@@ -171,7 +175,7 @@ Proof.
     + destruct E as (_ & _ & _ & E). rewrite E in Hs. inv Hs. intros h Hh. discriminate.
   - destruct pk; simpl in H; [|inv H; auto].
     destruct b as [o | m ok | m dcd].
-    + destruct (process_consensus r (v r) o) as [[st c0] o0] eqn:E. inv H.
+    + destruct (process_consensus g r (v r) o) as [[st c0] o0] eqn:E. inv H.
       apply wf_vset; auto. intros ds Hs.
       apply process_consensus_cases in E. destruct E as [[_ E]|E].
       * subst. eapply Hv; eauto.
@@ -235,11 +239,11 @@ Proof.
     + intros r' Hne. rewrite <- Hp. apply vset_other; auto.
   - destruct pk; simpl in Hstep; [|injection Hstep as Hp Hc Ho; left; rewrite <- Ho; reflexivity].
     destruct b as [o | m ok | m dcd].
-    + destruct (process_consensus r (ev_pre e r) o) as [[st c0] o0] eqn:E.
+    + destruct (process_consensus g r (ev_pre e r) o) as [[st c0] o0] eqn:E.
       injection Hstep as Hp Hc Ho.
       apply process_consensus_cases in E. destruct E as [[E _]|E]; [left; congruence|].
       destruct E as (ds & dc & A & E1 & E2). right. exists r. split.
-      * right. destruct A as (A1 & A2 & A3 & A4 & A5 & A6 & A7 & A8 & A9).
+      * right. destruct A as (A1 & A2 & A3 & A4 & A5 & A6 & A7 & A8 & A9 & A10).
         assert (Hh : dc_height dc = du_slot (ds_duty ds)).
         { eapply Hwf; eauto. }
         exists o, ds, dc. rewrite <- Ho.
@@ -327,7 +331,7 @@ Proof.
   destruct (vrun_event _ _ _ _ Hin wf_vinit) as [_ Hstep]. rewrite Ei in Hstep. simpl in Hstep.
   destruct pk; simpl in Hstep; [|injection Hstep as Hp Hc Ho; rewrite <- Hp; auto].
   destruct (match b with
-            | BCons o => process_consensus r (ev_pre e r) o
+            | BCons o => process_consensus g r (ev_pre e r) o
             | BPre m ok => process_pre g r (ev_pre e r) m ok
             | BPost m dcd => process_post g r (ev_pre e r) m dcd
             end) as [[st c0] o0].
@@ -390,13 +394,13 @@ Proof.
     + destruct E as (_ & _ & _ & ->). simpl. lia.
   - destruct pk; simpl in H; [|inv H; apply Hv].
     destruct b as [o | m ok | m dcd].
-    + destruct (process_consensus r (v r) o) as [[st c0] o0] eqn:E. inv H.
+    + destruct (process_consensus g r (v r) o) as [[st c0] o0] eqn:E. inv H.
       rewrite nsign_vset. destruct (role_eqb r' r) eqn:Er; [|apply Hv].
       apply role_eqb_eq in Er. subst r'.
       apply process_consensus_cases in E. destruct E as [[_ E]|E].
       * subst. apply (Hv r).
       * destruct E as (ds & dc & A & _ & ->). simpl.
-        destruct A as (_ & A2 & A3 & _ & _ & _ & A7 & _). rewrite A2, A3 in Hc. simpl in Hc.
+        destruct A as (_ & A2 & A3 & _ & _ & _ & A7 & _ & _ & _). rewrite A2, A3 in Hc. simpl in Hc.
         destruct (Nat.ltb 0 (ds_nsign ds)) eqn:El; [congruence|].
         apply Nat.ltb_ge in El. lia.
     + destruct (process_pre g r (v r) m ok) as [[st c0] o0] eqn:E. inv H.
@@ -428,10 +432,12 @@ Qed.
 
 (* without the controller fact the clause fails: the controller reports the decision of the running
    instance twice, each time as a first decision *)
-Definition at_most_once_statement : Prop :=
-  forall g hist e, In e (vrun g vinit hist) -> forall r, nsign_of (ev_post e) r <= 1.
+Definition at_most_once_statement (fixed : bool) : Prop :=
+  forall g hist e, v_fix_resign g = fixed ->
+    In e (vrun g vinit hist) -> forall r, nsign_of (ev_post e) r <= 1.
 
-Definition cfg4 : vcfg := {| v_committee := [1; 2; 3; 4]%N; v_quorum := 3 |}.
+Definition cfg4 : vcfg := {| v_committee := [1; 2; 3; 4]%N; v_quorum := 3; v_fix_resign := false; v_fix_multi := false |}.
+Definition cfg4_fixed : vcfg := {| v_committee := [1; 2; 3; 4]%N; v_quorum := 3; v_fix_resign := true; v_fix_multi := true |}.
 
 Definition reported_again : list rin :=
   let dc := {| dc_height := 12; dc_value := 0; dc_decodes := true; dc_valid := true;
@@ -440,7 +446,7 @@ Definition reported_again : list rin :=
   [ IStart RAtt {| du_slot := 12; du_pre := [] |} 0 true;
     IMsg true RAtt (BCons o); IMsg true RAtt (BCons o) ].
 
-Lemma at_most_once_refuted : ~ at_most_once_statement.
+Lemma at_most_once_refuted : ~ at_most_once_statement false.
 Proof.
   intros H.
   specialize (H cfg4 reported_again (nth 2 (vrun cfg4 vinit reported_again)
@@ -450,5 +456,81 @@ Proof.
      {| ev_pre := vinit; ev_in := IMsg false RAtt (BPre {| s_signer := 0; s_slot := 0; s_msgs := [] |} false);
         ev_class := COk; ev_outs := []; ev_post := vinit |}) (vrun cfg4 vinit reported_again)).
   { apply nth_In. simpl. lia. }
-  specialize (H Hin RAtt). vm_compute in H. lia.
+  specialize (H eq_refl Hin RAtt). vm_compute in H. lia.
+Qed.
+
+(* ---- with the repair of F-resign the clause holds without any assumption on the controller ---- *)
+
+Definition remembers (v : vstate) : Prop :=
+  forall r ds, v r = Some ds -> ds_nsign ds <= 1 /\ (ds_decided ds = None -> ds_nsign ds = 0).
+
+Lemma vstep_remembers : forall g v i v' c outs,
+  v_fix_resign g = true -> vstep g v i = (v', c, outs) -> remembers v -> remembers v'.
+Proof.
+  intros g v i v' c outs Hfx H Hv r' ds' Hs'.
+  destruct i as [r d ch ok | pk r b]; simpl in H.
+  - destruct (start_duty r (v r) d ch ok) as [[st c0] o0] eqn:E. inv H.
+    unfold vset in Hs'. destruct (role_eqb r' r) eqn:Er; [|eapply Hv; eauto].
+    apply start_duty_cases in E. destruct E as [[_ [E|E]]|E].
+    + subst. eapply Hv; eauto.
+    + destruct E as (ds & E1 & _ & E2 & _). rewrite E1 in Hs'. inv Hs'. rewrite E2. split; [lia|auto].
+    + destruct E as (_ & _ & _ & E). rewrite E in Hs'. inv Hs'. simpl. split; [lia|auto].
+  - destruct pk; simpl in H; [|inv H; eapply Hv; eauto].
+    destruct b as [o | m ok | m dcd].
+    + destruct (process_consensus g r (v r) o) as [[st c0] o0] eqn:E. inv H.
+      unfold vset in Hs'. destruct (role_eqb r' r) eqn:Er; [|eapply Hv; eauto].
+      apply process_consensus_cases in E. destruct E as [[_ E]|E].
+      * subst. eapply Hv; eauto.
+      * destruct E as (ds & dc & A & _ & E). rewrite E in Hs'. inv Hs'.
+        destruct A as (_ & A2 & _ & _ & _ & _ & _ & _ & _ & A10).
+        destruct (Hv r ds A2) as [_ H0]. specialize (H0 (A10 Hfx)). simpl. rewrite H0.
+        split; [lia|discriminate].
+    + destruct (process_pre g r (v r) m ok) as [[st c0] o0] eqn:E. inv H.
+      unfold vset in Hs'. destruct (role_eqb r' r) eqn:Er; [|eapply Hv; eauto].
+      subst st. clear Er.
+      unfold process_pre in E.
+      destruct (has_pre r); cbn [negb] in E; [|inv E; eapply Hv; eauto].
+      destruct (v r) as [ds|] eqn:Ev; [|inv E].
+      specialize (Hv r ds Ev).
+      destruct (ds_finished ds); [inv E; auto|].
+      destruct (validate _ m); try (inv E; auto; fail).
+      destruct (base_processing _ _ _) as [c1 roots].
+      destruct roots as [|r0 tl]; [inv E; auto|].
+      destruct (reconstruct_all _ _ _).
+      * destruct (has_consensus r).
+        -- destruct ok; inv E; auto.
+        -- inv E. auto.
+      * inv E. auto.
+    + destruct (process_post g r (v r) m dcd) as [[st c0] o0] eqn:E. inv H.
+      unfold vset in Hs'. destruct (role_eqb r' r) eqn:Er; [|eapply Hv; eauto].
+      subst st. clear Er.
+      unfold process_post in E.
+      destruct (has_consensus r); cbn [negb] in E; [|inv E; eapply Hv; eauto].
+      destruct (v r) as [ds|] eqn:Ev; [|inv E].
+      specialize (Hv r ds Ev).
+      destruct (ds_finished ds); [inv E; auto|].
+      destruct (ds_decided ds) as [dv|] eqn:Ed; [|inv E; rewrite Ed; exact Hv].
+      destruct (ds_running ds); [|inv E; rewrite Ed; exact Hv].
+      destruct dcd; cbn [negb] in E; [|inv E; rewrite Ed; exact Hv].
+      destruct (PartialSig.step _ _ _) as [ps o]. inv E. simpl. exact Hv.
+Qed.
+
+Lemma vrun_remembers : forall g hist v e,
+  v_fix_resign g = true -> remembers v -> In e (vrun g v hist) -> remembers (ev_post e).
+Proof.
+  induction hist as [|i tl IH]; intros v e Hfx Hv Hin; simpl in *; [contradiction|].
+  destruct (vstep g v i) as [[v1 c] outs] eqn:E.
+  assert (Hv1 : remembers v1) by (eapply vstep_remembers; eauto).
+  destruct Hin as [<-|Hin]; simpl; auto.
+  eapply IH; eauto.
+Qed.
+
+Lemma at_most_once_fixed : forall g hist e,
+  v_fix_resign g = true ->
+  In e (vrun g vinit hist) -> forall r, nsign_of (ev_post e) r <= 1.
+Proof.
+  intros g hist e Hfx Hin r.
+  assert (Hr : remembers (ev_post e)).
+  { eapply vrun_remembers; eauto. intros r0 ds H. discriminate. }
+  unfold nsign_of. destruct (ev_post e r) as [ds|] eqn:E; [|lia]. apply (Hr r ds E).
 Qed.
